@@ -66,10 +66,11 @@ def main():
         demo = os.path.abspath(os.path.join(a.src, 'demo.py'))
         src_text = open(demo, encoding='utf-8').read()
         for tree in (mut, clean):   # the agents' demos may hard-code their worktree path
-            with open(os.path.join(tree, '_demo.py'), 'w', encoding='utf-8') as fh:
-                fh.write(re.sub(r'/tmp/seed[234]?/C\d+', tree, src_text))
-        rc_m, out_m, err_m = sh([PY, '_demo.py'], cwd=mut, env=env_for(mut), timeout=900)
-        rc_c, out_c, err_c = sh([PY, '_demo.py'], cwd=clean, env=env_for(clean), timeout=900)
+            os.makedirs(os.path.join(tree, '_seed', 'x'), exist_ok=True)
+            with open(os.path.join(tree, '_seed', 'x', 'demo.py'), 'w', encoding='utf-8') as fh:
+                fh.write(re.sub(r'/tmp/seed\d*/C\d+', tree, src_text))
+        rc_m, out_m, err_m = sh([PY, os.path.join('_seed', 'x', 'demo.py')], cwd=mut, env=env_for(mut), timeout=900)
+        rc_c, out_c, err_c = sh([PY, os.path.join('_seed', 'x', 'demo.py')], cwd=clean, env=env_for(clean), timeout=900)
         meta['demo_with_change_rc'] = rc_m
         meta['demo_without_change_rc'] = rc_c
         meta['demo_with_change_tail'] = (out_m + err_m)[-600:]
